@@ -101,6 +101,48 @@ def cmp_display_table(prog):
                 if y not in seen and len(b.pred(y)) <= 1:
                     seen.add(y)
                     st.append(y)
+    if len(tab) < len(t["targets"]):
+        # the other spelling: each arm picks the operator text, one shared write! prints `path <op> value`
+        picked = {}
+        dest = set()
+        per_arm = {}
+        for val, tb in t["targets"]:
+            v = names.get(int(val), "?")
+            x = tb
+            hops = 0
+            vals = {}
+            while hops < 6:
+                hops += 1
+                for st2 in b.blocks[x]["stmts"]:
+                    if st2["k"] == "assign" and not st2["lhs"]["p"]:
+                        rv = st2["rv"]
+                        c = G.describe(b, rv["op"]) if rv["k"] == "use" else (G.describe_place(b, rv["place"]) if rv["k"] == "ref" else None)
+                        if c is not None and c.kind == "conststr":
+                            vals[st2["lhs"]["l"]] = c.v
+                nx = b.succ(x)
+                if len(nx) != 1 or len(b.pred(nx[0])) > 1:
+                    break
+                x = nx[0]
+            per_arm[v] = vals
+        common = None
+        for v, vals in per_arm.items():
+            common = set(vals) if common is None else (common & set(vals))
+        if common and len(common) == 1:
+            L = next(iter(common))
+            dest = {L}
+            picked = {v: vals[L] for v, vals in per_arm.items()}
+        if len(picked) == len(t["targets"]) and len(dest) == 1:
+            opl = dest.pop()
+            for bi2, tt in b.calls():
+                if strip_generics(mir.callee_name(tt) or "").endswith("Formatter::write_fmt"):
+                    a = fmtargs.arguments_of(b, tt["args"][1])
+                    if a and a[0] is not None and a[1]:
+                        lits = [p[1] for p in a[0] if p[0] == "lit"]
+                        argl = [repr(G.describe(b, x2[2])) for x2 in a[1]]
+                        # template "{} {} {}" with the picked text as the middle argument
+                        mid = [i for i, r in enumerate(argl) if re.fullmatch(r"_%d\*?" % opl, r) or r == "_%d" % opl]
+                        if lits == [" ", " "] and len(argl) == 3 and mid == [1] and b.dominates(bb, bi2):
+                            tab = {v: " " + txt + " " for v, txt in picked.items()}
     return tab, b
 
 
@@ -424,31 +466,102 @@ def check_reductions(ctx, rep):
             rep.ok("T-REDUCE", "dict:filter-is-eval", df.where(), "Dict::filter returns filter.eval(context) on its only path")
         else:
             rep.bad("T-REDUCE", "T-REDUCE:dict:filter-is-eval", df.where(switches[0]) if switches else df.where(), "Dict::filter is not plainly filter.eval(context) (returns %s, %d branches): some records get an answer the filter did not give" % (repr(ret)[:80], len(switches)))
-    # grid filtering: first hit of a forward iteration; all hits in iteration order
-    if body_of(prog, "haystack::filter::filtered::grid::<impl haystack::filter::filtered::Filtered for haystack::val::grid::Grid>::filter") is None:
+    # grid filtering: first hit of a forward iteration; all hits in iteration order. Both the iterator-adaptor and the explicit
+    # loop spelling are accepted; what matters is: forward over self.rows, selected exactly when Dict::filter(row, filter) is
+    # true (un-negated), first hit / every hit in order
+    def fam(b0):
+        return [b0] + [prog.bodies[c] for c in prog.closures_of.get(b0.id, [])]
+
+    def rows_forward(b0):
+        """(ok, why): rows are walked by iter() / into_iter() / a for loop over &self.rows, never reversed"""
+        src = False
+        for x in fam(b0):
+            for _bi, t in x.calls():
+                nm = strip_generics(mir.callee_name(t) or "")
+                r = " ".join(repr(G.describe(x, a)) for a in t["args"])
+                if re.search(r"::(rev|rfind|rposition|next_back|last|max_by|min_by|max_by_key|min_by_key|pop|rfold|nth_back)$", nm) and ".rows" in r:
+                    return False, "rows are walked with %s" % nm.split("::")[-1]
+                if re.search(r"::(iter|into_iter)$", nm) and ".rows" in r:
+                    src = True
+        return (True, "") if src else (False, "no forward iteration over self.rows")
+
+    def predicate(b0):
+        """where the Dict filter is applied: [(body, block)] of calls Filtered-for-Dict::filter(row, filter)"""
+        out = []
+        for x in fam(b0):
+            for bi, t in x.calls():
+                if re.search(r"Filtered(<[^>]*>)?( for [A-Za-z:]+)?>::filter$", strip_generics(mir.callee_name(t) or "")) and "dict" in strip_generics(mir.callee_name(t) or "").lower():
+                    out.append((x, bi))
+        return out
+
+    def selects_unnegated(x, bi):
+        """the predicate's result is used as is: it is the closure's return value, or the true edge of the branch on it leads to the selection"""
+        if x.rec["kind"] == "Closure":
+            r = G.describe_place(x, {"l": 0, "p": []})
+            if r.kind == "call" and r.v.endswith("::filter"):
+                return True
+            return False
+        return None  # decided by the caller from guards
+
+    gname = "haystack::filter::filtered::grid::<impl haystack::filter::filtered::Filtered for haystack::val::grid::Grid>::filter"
+    if body_of(prog, gname) is None:
         rep.gap("Grid::filter", "-", "Filtered impl for Grid not found")
-    gf = body_of(prog, "haystack::filter::filtered::grid::<impl haystack::filter::filtered::Filtered for haystack::val::grid::Grid>::filter")
+    gf = body_of(prog, gname)
     if gf is not None:
         n += 1
-        ok = any((strip_generics(mir.callee_name(t) or "").endswith("Iterator>::find") or strip_generics(mir.callee_name(t) or "") == "std::iter::Iterator::find") and ".rows" in repr(G.describe(gf, t["args"][0])) and "rev" not in repr(G.describe(gf, t["args"][0])) for _, t in gf.calls())
-        if ok:
-            rep.ok("T-REDUCE", "grid:filter-first", gf.where(), "Iterator::find over self.rows in forward order")
+        okf, why = rows_forward(gf)
+        if okf:
+            preds = predicate(gf)
+            adaptors = [strip_generics(mir.callee_name(t) or "").split("::")[-1] for x in fam(gf) for _bi, t in x.calls() if re.search(r"Iterator(>|)::[a-z_]+$", strip_generics(mir.callee_name(t) or ""))]
+            if not preds:
+                okf, why = False, "Dict::filter is never applied to a row"
+            elif "find" in adaptors:
+                okf = all(selects_unnegated(x, bi) for x, bi in preds if x.rec["kind"] == "Closure")
+                why = "" if okf else "the find predicate is not the row's filter result as is"
+            else:
+                # explicit loop: `return Some(row)` under the true edge of the predicate, None after the loop
+                okf = False
+                why = "no `return Some(row)` on the true edge of row.filter(filter)"
+                for x, bi in preds:
+                    if x.rec["kind"] == "Closure":
+                        continue
+                    for rb in range(x.n):
+                        for st in x.blocks[rb]["stmts"]:
+                            if st["k"] == "assign" and not st["lhs"]["p"] and st["lhs"]["l"] == 0 and st["rv"]["k"] == "agg" and st["rv"].get("variant") == "Some":
+                                gs = G.guards_at(x, rb)
+                                if any(g.op == "True" and g.a is not None and g.a.kind == "call" and g.a.v.endswith("::filter") for g in gs) and not any(strip_generics(mir.callee_name(t2) or "").endswith("Vec::push") for _b2, t2 in x.calls()):
+                                    okf = True
+        if okf:
+            rep.ok("T-REDUCE", "grid:filter-first", gf.where(), "first row, in forward order, for which the filter holds")
         else:
-            rep.bad("T-REDUCE", "T-REDUCE:grid:filter-first", gf.where(), "Grid::filter is not the first hit of a forward iteration over rows")
+            rep.bad("T-REDUCE", "T-REDUCE:grid:filter-first", gf.where(), "Grid::filter is not the first hit of a forward iteration over rows (%s)" % why)
     ga = body_of(prog, "haystack::filter::filtered::grid::<impl haystack::filter::filtered::ListFiltered for haystack::val::grid::Grid>::filter_all")
     if ga is not None:
         n += 1
-        pushes = [(bi, t) for bi, t in ga.calls() if strip_generics(mir.callee_name(t) or "") == "std::vec::Vec::push"]
-        ok = False
-        for bi, t in pushes:
-            gs = G.guards_at(ga, bi)
-            hit = any(g.op == "True" and g.a.kind == "call" and re.search(r"Filtered( for [A-Za-z:]+)?>::filter$", g.a.v) for g in gs)
-            it = any(g.a is not None and g.a.kind == "discr" and g.a.args and ".rows" in repr(g.a.args[0]) and "rev" not in repr(g.a.args[0]) for g in gs)
-            ok = ok or (hit and it)
-        if ok and len(pushes) == 1:
-            rep.ok("T-REDUCE", "grid:filter-all", ga.where(), "rows are pushed, in iteration order, exactly when the filter holds")
+        oka, why = rows_forward(ga)
+        if oka:
+            preds = predicate(ga)
+            names = [strip_generics(mir.callee_name(t) or "") for x in fam(ga) for _bi, t in x.calls()]
+            adaptors = [nm.split("::")[-1] for nm in names if re.search(r"Iterator(>|)::[a-z_]+$", nm)]
+            pushes = [(bi, t) for bi, t in ga.calls() if strip_generics(mir.callee_name(t) or "") == "std::vec::Vec::push"]
+            if not preds:
+                oka, why = False, "Dict::filter is never applied to a row"
+            elif "filter" in adaptors and "collect" in adaptors and not pushes:
+                oka = all(selects_unnegated(x, bi) for x, bi in preds if x.rec["kind"] == "Closure") and not any(a in adaptors for a in ("take", "skip", "step_by", "take_while", "skip_while", "rev", "dedup"))
+                why = "" if oka else "the filter adaptor's predicate is not the row's filter result as is, or rows are dropped by another adaptor"
+            else:
+                oka = False
+                why = "rows are not pushed exactly when the filter holds"
+                for bi, t in pushes:
+                    gs = G.guards_at(ga, bi)
+                    hit = any(g.op == "True" and g.a.kind == "call" and re.search(r"Filtered( for [A-Za-z:]+)?>::filter$", g.a.v) for g in gs if g.a is not None)
+                    it = any(g.a is not None and g.a.kind == "discr" and g.a.args and ".rows" in repr(g.a.args[0]) and "rev" not in repr(g.a.args[0]) for g in gs)
+                    if hit and it and len(pushes) == 1:
+                        oka = True
+        if oka:
+            rep.ok("T-REDUCE", "grid:filter-all", ga.where(), "every row for which the filter holds, in iteration order")
         else:
-            rep.bad("T-REDUCE", "T-REDUCE:grid:filter-all", ga.where(), "filter_all does not push each row of a forward iteration exactly when the filter holds")
+            rep.bad("T-REDUCE", "T-REDUCE:grid:filter-all", ga.where(), "filter_all does not yield each row of a forward iteration exactly when the filter holds (%s)" % why)
     return n
 
 
